@@ -117,4 +117,16 @@ theorem engine_roots (E : EnvS env sp) (hF : FirstFn env) {fuel : Nat} {s s' : S
   rw [h1, h4, hheap, R.vars]
   simp [varRoots]
 
+/-- history of the combined fragment, then drops of node handles / observers: the invariant and `ObsDead` -/
+theorem history_hdrops (E : EnvS env sp) (hF : FirstFn env) {N : Nat} {d : Bool} {acts drops : List Action}
+    {s : State} {tk : Array Nat} (hH : HistFull env sp 0 acts) (hd : ∀ a, a ∈ drops → HDrop a)
+    (h : Quiet.runActions env (acts ++ drops) (State.init N d) #[] = .ok (s, tk)) :
+    QInvFE env sp s ∧ ObsDead s := by
+  refine ⟨?_, obsDead_run (obsDead_init N d) h⟩
+  rw [Quiet.runActions_append] at h
+  rcases h1 : Quiet.runActions env acts (State.init N d) #[] with e | ⟨s1, tk1⟩
+  · rw [h1] at h; cases h
+  · rw [h1] at h
+    exact hdrop_run E hF (FullH.history_inv E hF hH h1) hd h
+
 end IncrVerif.Proofs.LeakF
